@@ -19,7 +19,7 @@ MANIFEST = {
     "technique": "Rocq/Coq proof over hand-written model + correspondence check (extracted OCaml vs real binary and Rust driver)"
 }
 
-RULE = ("histories: every sequence of length <=2 over the full alphabet and of length 3 over 6 hashed edits (quick; 8 thorough), in addition length 3 over a "
+RULE = ("histories: quick - every op of the full alphabet at length 1 (none and zod), every pair over a one-per-class alphabet of 25 ops, 200+60 sampled pairs over the full alphabet, length 3 over 5 hashed edits; thorough - every pair over the full alphabet, length 3 over 8 hashed edits, length 3 over a "
         "17-op alphabet and 1500 sampled of length 4-6 per entry (thorough), alphabet = "
         "{one toggle edit per class, delete types.ts/commands.ts/events.ts/index.ts/.typecache}, each op followed by a non-forced "
         "run in a fresh process, on the CLI path and the build-script path, base project in mode none (all) and zod (length<=1 and "
@@ -31,7 +31,7 @@ ASSUMPTIONS = ["equal combined_hash <=> equal fingerprint (SipHash-1-3 collision
                "a forced generation into an empty directory is the reference; differences in line order only are attributed to C13"]
 
 STATS = {}
-KF_BY_CLASS = {6: "C08-6", 8: "C08-8", 9: "C08-9"}
+KF_BY_CLASS = {8: "C08-8"}
 DELETES = ["delete:types.ts", "delete:commands.ts", "delete:events.ts", "delete:index.ts", "delete:.typecache"]
 # reduced alphabet for length-3 enumeration: one per class named in the property text + file loss
 CORE = ["cmd_add", "param_type", "ret_type", "field_add", "serde_rename", "serde_rename_all", "serde_skip", "enum_variant",
@@ -208,23 +208,32 @@ def regressions(pid):
     return [{k: v for k, v in c.items() if k != "note"} for c in json.load(open(path))]
 
 
+# one representative per edit class of the property text (+ the unhashed / noise / deletion classes): the alphabet of
+# the exhaustive length-2 enumeration of the quick tier; the full alphabet (several representatives per class) is used
+# at length 1, in the sampled pairs and, exhaustively, in the thorough tier
+ALPHA = CORE + ["event_add", "visualize", "noise", "map_target", "include_private", "cmd_rename_all", "delete:.typecache",
+                "delete:commands.ts"]
+
+
 def history_cases(tier, rng):
     ops = sorted(C.EDITS) + DELETES
     cases = []
     for entry in ("cli", "build"):
-        for n in (0, 1, 2):
-            for seq in itertools.product(ops, repeat=n):
-                cases.append({"entry": entry, "base": "none", "ops": list(seq)})
         for n in (0, 1):
             for seq in itertools.product(ops, repeat=n):
+                cases.append({"entry": entry, "base": "none", "ops": list(seq)})
                 cases.append({"entry": entry, "base": "zod", "ops": list(seq)})
+        for seq in itertools.product(ops if tier == "thorough" else ALPHA, repeat=2):
+            cases.append({"entry": entry, "base": "none", "ops": list(seq)})
         for op in ops:
             cases.append({"entry": entry, "base": "none", "viz": True, "ops": [op]})
-        nz = 120 if tier == "quick" else 600
-        for _ in range(nz):
+        for _ in range(60 if tier == "quick" else 600):
             cases.append({"entry": entry, "base": "zod", "ops": [rng.choice(ops), rng.choice(ops)]})
-        # every sequence of length 3 over hashed edits (outside every recorded class)
-        for seq in itertools.product(SAFE if tier == "thorough" else SAFE[:6], repeat=3):
+        if tier == "quick":
+            for _ in range(200):
+                cases.append({"entry": entry, "base": "none", "ops": [rng.choice(ops), rng.choice(ops)]})
+        # every sequence of length 3 over hashed edits
+        for seq in itertools.product(SAFE if tier == "thorough" else SAFE[:5], repeat=3):
             cases.append({"entry": entry, "base": "none", "ops": list(seq)})
         if tier == "thorough":
             for seq in itertools.product(CORE, repeat=3):
@@ -268,7 +277,7 @@ def config_histories():
     for entry in ("cli", "build"):
         for conf in ("cfile", "tauri"):
             for maps in (False, True):
-                for n in (1, 2):
+                for n in ((1, 2) if maps else (1,)):
                     for seq in itertools.product(cfg_edits(conf), repeat=n):
                         cases.append({"entry": entry, "base": "none", "conf": conf, "maps": maps, "ops": list(seq)})
     return cases
